@@ -284,7 +284,9 @@ func noteWorldNontrivial(w *World, r *Sx, env *execEnv) {
 // peerMatchesFocus: a workload peer name ns/name[Kind] (or {ingress-controller}) against a focus string
 func peerMatchesFocus(peer, focus string) bool {
 	if strings.HasPrefix(peer, "{") {
-		return strings.Trim(peer, "{}") == focus
+		// the pod the ingress analysis adds is a workload like any other: it answers to its name and to namespace/name
+		n := strings.Trim(peer, "{}")
+		return n == focus || "ingress-controller-ns/"+n == focus
 	}
 	i := strings.LastIndex(peer, "[")
 	if i < 0 {
